@@ -19,4 +19,5 @@ INVARIANT FloorDivOK
 INVARIANT ToWeeksOK
 INVARIANT BoolOK
 INVARIANT StdOK
+CONSTANT StdDropsDayCarry <- Off
 CHECK_DEADLOCK FALSE
